@@ -12,8 +12,8 @@ static struct { CC_StackIter it; int on; } SI[NH];
 static struct { CC_StackZipIter it; int on; } SZ[NH];
 
 static bool pred_even(const void *e) { return ((uintptr_t)e % 2) == 0; }
-static int cmp16(const void *a, const void *b) { uintptr_t x = (uintptr_t)a / 16, y = (uintptr_t)b / 16; return (x > y) - (x < y); }
-static int cmp_sort(const void *a, const void *b) { uintptr_t x = *(uintptr_t*)a, y = *(uintptr_t*)b; return (x > y) - (x < y); }
+static int cmp16(const void *a, const void *b) { uintptr_t x = (uintptr_t)a / 16, y = (uintptr_t)b / 16; return (x > y) ? 5 : (x < y) ? -3 : 0; }   /* legal comparators need not return -1/0/1 */
+static int cmp_sort(const void *a, const void *b) { uintptr_t x = *(uintptr_t*)a, y = *(uintptr_t*)b; return (x > y) ? 5 : (x < y) ? -3 : 0; }   /* legal comparators need not return -1/0/1 */
 static void *cp1000(void *e) { return (void*)((uintptr_t)e + 1000); }
 static void red(void *a, void *b, void *r) { *(uintptr_t*)r = (a == r ? *(uintptr_t*)r : (uintptr_t)a) * 31 + (uintptr_t)b; }
 static char vlog[4096]; static size_t vlen;
